@@ -144,7 +144,10 @@ def run(facts, rep, files=("src/ckks_encoder.rs", "src/batch_encoder.rs"), floor
                                   "the next stride / the buffer length")))
             bad = [v for v in verdicts if v[0] == "viol"]
             unres = [v for v in verdicts if v[0] == "unres"]
-            if bad:
+            if bad and unres:
+                rep.unresolved(R, key, "coverage of `%s` not decided: some stores are bounded by an input's length (%s) but others are "
+                               "not read (%s) — they may complete the coverage" % (d["name"], bad[0][2], unres[0][2]), facts.loc(p, bad[0][1]))
+            elif bad:
                 rep.violation(R, key, "`%s` is resized (old elements kept) and then stored into only at positions bounded by the "
                               "length of an input slice (%s); nothing zero-fills it first: positions beyond the input's length keep "
                               "the previous contents of a reused destination in every RNS component and are encoded with the rest" %
